@@ -20,6 +20,14 @@ def Out.reports (j : Nat) : Out → Bool
 /-- how often the message with serial `j` is reported in a trace -/
 def nk (j : Nat) (l : List Out) : Nat := l.countP (Out.reports j)
 
+/-- is this output a PDU of message `j` handed to the transport (first transmission or not)? -/
+def Out.writes (j : Nat) : Out → Bool
+  | .tx _ _ (some i) => i == j
+  | _ => false
+
+/-- how often message `j` is written in a trace -/
+def wr (j : Nat) (l : List Out) : Nat := l.countP (Out.writes j)
+
 @[simp] theorem nk_nil (j : Nat) : nk j [] = 0 := rfl
 theorem nk_append (j : Nat) (a b : List Out) : nk j (a ++ b) = nk j a + nk j b := by simp [nk, List.countP_append]
 
